@@ -1141,8 +1141,10 @@ class XsdGroup(XsdComponent, MutableSequence[ModelParticleType],
             if isinstance(name, int):
                 if not children:
                     text = text + value if text is not None else value
-                else:
+                elif children[-1].tail is None:
                     children[-1].tail = value
+                else:
+                    children[-1].tail += value
                 cdata_index += 1
                 continue
 
